@@ -1,6 +1,7 @@
 package convert
 
 import (
+	"math/big"
 	"strings"
 
 	"github.com/zclconf/go-cty/cty"
@@ -16,8 +17,14 @@ var primitiveConversionsSafe = map[cty.Type]map[cty.Type]conversion{
 			if f.IsInt() {
 				// Whole numbers compare exactly, so they must be written
 				// exactly rather than as the shortest text that identifies
-				// them at their own precision.
-				return cty.StringVal(f.Text('f', 0)), nil
+				// them at their own precision: we use the shortest text
+				// that identifies them at the precision numbers are
+				// parsed with, so that converting back gives the same
+				// number.
+				if f.Prec() < 512 {
+					f = new(big.Float).SetPrec(512).Set(f)
+				}
+				return cty.StringVal(f.Text('f', -1)), nil
 			}
 			return cty.StringVal(f.Text('f', -1)), nil
 		},
